@@ -11,6 +11,9 @@ Streams
                  order) x import forms from a top-level script and from modules inside packages:
                  Script.infer / goto(follow_imports=True) vs Model (Importer.init + follow + attribute-first)
   oracle-resolve the same answers vs the real import system run in a clean interpreter with that sys.path
+  starchain      layouts with CHAINS of star imports (relative / absolute inner links, same-named siblings in the
+                 starting package): ModuleMixin.star_imports() of the starting module vs Model.StarChain; the
+                 names reached only through the chain are judged by oracle-resolve (forms starchain / from-starchain)
   oracle-dotted  for every file of the tree: the dotted name jedi derives imports back to that file
 """
 import itertools
@@ -25,7 +28,7 @@ from common import short
 from gen import scratch
 from gen.scratch import B, Scratch
 
-MODELS = ['Imports']
+MODELS = ['Imports', 'StarChain']
 MANIFEST = dict(
     text='Theorems over the model of Importer.__init__ (level rewriting), import_module_by_names/import_module '
          '(the fold over the dotted name, finder as parameter), infer_import (attribute first, then sub-module) and '
@@ -35,12 +38,17 @@ MANIFEST = dict(
          'equals pyImport on the whole dotted name and is empty as soon as one step is; from-import agrees with '
          'Python\'s attribute-then-submodule rule; every dotted name derived under the separator-boundary '
          'hypothesis spells the path below its sys.path entry (kernel-checked counter-witness /foo/ba vs /foo/bar '
-         'for the unrestricted statement, F4), and the first shortest candidate is returned.',
+         'for the unrestricted statement, F4), and the first shortest candidate is returned.  Chains of star imports '
+         '(Model.StarChain = ModuleMixin.star_imports, recursion shape read from the source): every link is resolved '
+         'against the package of the module that contains it, the modules listed are exactly those whose names '
+         'executing the modules copies (star_chain_sound / _complete / star_chain_names_eq_python), kernel-checked '
+         'witness for a recursion that hands the root module\'s context down.',
     note='Modelled not verified: importlib (finder = parameter; its model pyFind is validated by stream find), '
          'module caches, stub lookup, old-style declare_namespace packages, compiled modules, zip imports, '
          'sys.path modifications detected in the source.',
     technique='Lean 4 proof over hand-written model + translator-generated constants + differential '
-              'correspondence on generated directory trees + importlib in a clean interpreter as oracle',
+              'correspondence on generated directory trees (incl. star-import chains: stream starchain) + importlib in a '
+              'clean interpreter as oracle',
     design='5.C10')
 LEAN_TARGETS = ['JediModel.Props.C10', 'JediModel.Drivers.C10']
 
@@ -266,6 +274,138 @@ def statement(q):
     return code, 2, 1
 
 
+# ----------------------------------------------------------------- star-import chains
+
+SNAMES = ['zqa', 'zqb', 'zqc', 'zqd', 'zqe']
+
+
+def gen_star_tree(rng):
+    """A layout whose names travel through a CHAIN of star imports: an exporting package P whose __init__ does
+    `from .X import *` / `from P.X import *`, X (module or package) possibly star-importing a further link Y
+    (child, sibling through `..`, or absolute), the last link binding classes and (a package) its sub-module Z by
+    `from . import Z`.  The chain is entered from a top-level script, from a module of another package A - which
+    has same-named siblings A/X, A/Y, A/Z - and through A/__init__ (`from . import name`).  Every link of the chain
+    has to be resolved relative to the module that CONTAINS the statement, which only shows when the starting
+    module lives in another package than the inner links."""
+    P, A, X, Y, Z = rng.sample(SNAMES, 5)
+    roots = ['r1', 'r2']
+    ra = rng.choice(roots)
+    nested = rng.random() < 0.3            # the exporting package is a sub-package of the starting one
+    rp = ra if nested else rng.choice(roots)
+    pdot = [A, P] if nested else [P]
+    files, info = {}, {}
+    counter = [0]
+
+    def kname():
+        counter[0] += 1
+        return 'K%d' % counter[0]
+
+    def relfile(root, dotted, is_pkg):
+        return root + '/' + '/'.join(dotted) + ('/__init__.py' if is_pkg else '.py')
+
+    def put(rel, stars=(), classes=(), binds=()):
+        lines = ['from %s%s import *' % ('.' * lvl, '.'.join(path)) for lvl, path in stars]
+        lines += ['from . import %s' % b for b in binds]
+        lines += ['class %s:\n    pass' % c for c in classes]
+        files[rel] = ''.join(x + '\n' for x in lines)
+        info[rel] = {'stars': [[lvl, list(path)] for lvl, path in stars], 'defs': list(classes) + list(binds)}
+
+    def taken(root, dotted):
+        return relfile(root, dotted, True) in files or relfile(root, dotted, False) in files
+
+    # ---- the chain
+    depth = rng.choice([1, 1, 2])          # number of INNER links
+    chain = [(pdot, True)]
+    links = []
+    for n in [X, Y][:depth]:
+        cur, cur_pkg = chain[-1]
+        options = []
+        if cur_pkg:
+            options.append((cur + [n], 1))
+            if len(cur) >= 2:
+                options.append((cur[:-1] + [n], 2))
+        else:
+            options.append((cur[:-1] + [n], 1))
+        options = [o for o in options if not taken(rp, o[0]) and o[0] not in [c for c, _ in chain]]
+        target, lvl = rng.choice(options)
+        star = (lvl, [n]) if rng.random() < 0.7 else (0, target)
+        links.append(star)
+        chain.append((target, rng.random() < 0.5))
+    names = []
+    for i, (dotted, is_pkg) in enumerate(chain):
+        last = i == len(chain) - 1
+        classes = [kname()] if (last or rng.random() < 0.6) else []
+        binds = []
+        if last and is_pkg and rng.random() < 0.7:
+            binds = [Z]
+            put(relfile(rp, dotted + [Z], False), classes=[kname()])
+        put(relfile(rp, dotted, is_pkg), stars=[links[i]] if not last else [], classes=classes, binds=binds)
+        names += [(c, i) for c in classes + binds]
+    all_classes = [c for c, _ in names if c != Z]
+    # ---- the starting package and its same-named siblings, decoys at top level of the roots
+    a_init = relfile(ra, [A], True)
+    a_star = rng.random() < 0.4
+    first_abs = (0, pdot)
+    first_rel = (1, [P]) if nested else None
+    put(a_init, stars=[first_rel if (first_rel and rng.random() < 0.5) else first_abs] if a_star else [])
+    for n in (X, Y, Z):
+        if rng.random() < 0.65 and not taken(ra, [A, n]):
+            put(relfile(ra, [A, n], rng.random() < 0.3),
+                classes=all_classes if rng.random() < 0.5 else [kname()])
+        if rng.random() < 0.3:
+            r = rng.choice(roots)
+            if not taken(r, [n]):
+                put(relfile(r, [n], False), classes=all_classes if rng.random() < 0.5 else [kname()])
+    # ---- importers and their queries
+    deep = [c for c, i in names if i == len(chain) - 1]
+    importers = []
+
+    def queries(firsts):
+        qs = []
+        for lvl, path in firsts:
+            picked = deep + rng.sample([c for c, _ in names if c not in deep],
+                                       min(1, len([c for c, _ in names if c not in deep])))
+            for nm in picked:
+                if rng.random() < 0.7:
+                    qs.append({'form': 'starchain', 'level': lvl, 'names': path, 'from_name': None, 'star_name': nm})
+                else:
+                    qs.append({'form': 'from-starchain', 'level': lvl, 'names': path, 'from_name': nm})
+        return qs
+
+    importers.append(('s.py', None, None, queries([first_abs])))
+    run = relfile(ra, [A, 'run'], False)
+    files[run] = ''
+    info[run] = {'stars': [], 'defs': []}
+    importers.append((run, A, A + '.run', queries([first_abs] + ([first_rel] if first_rel else []))))
+    if a_star:
+        use = relfile(ra, [A, 'use'], False)
+        files[use] = ''
+        info[use] = {'stars': [], 'defs': []}
+        importers.append((use, A, A + '.use', [
+            {'form': 'from-starchain', 'level': 1, 'names': [], 'from_name': nm,
+             'star_vs_submodule': taken(ra, [A, nm])} for nm in deep] + [
+            {'form': 'from-starchain', 'level': 0, 'names': [A], 'from_name': nm,
+             'star_vs_submodule': taken(ra, [A, nm])} for nm in deep[:1]]))
+    dirs = set(roots)
+    for f in files:
+        ps = f.split('/')[:-1]
+        for i in range(1, len(ps) + 1):
+            dirs.add('/'.join(ps[:i]))
+    order = roots[:]
+    rng.shuffle(order)
+    return {'roots': order, 'files': files, 'dirs': sorted(dirs),
+            'classes': {f: [d for d in i['defs'] if d.startswith('K')] for f, i in info.items()},
+            'tag': 'starchain', 'info': info, 'importers': importers}
+
+
+def star_statement(q):
+    dotted = '.'.join(q['names'])
+    if q['form'] == 'starchain':
+        return 'from %s%s import *\n%s' % ('.' * q['level'], dotted, q['star_name']), 2, 1
+    code = 'from %s%s import %s' % ('.' * q['level'], dotted, q['from_name'])
+    return code, 1, len(code) - 1
+
+
 # ----------------------------------------------------------------- canonical answers
 
 def canon_names(names, base):
@@ -370,6 +510,49 @@ def fixed_trees():
     ]
 
 
+def star_world_cases(ctx, reqs, cases, tree, base, project, ti):
+    """correspondence stream starchain: the real ModuleMixin.star_imports() of the starting module vs
+    Model.StarChain.starImportsOf in the world of modules of the layout (dotted name -> package, star imports)"""
+    import jedi
+    import parso.cache
+    by_name, by_file = {}, {}
+    for r in tree['roots']:
+        for f in sorted(tree['files']):
+            root, *rest = f.split('/')
+            if root != r:
+                continue
+            is_pkg = rest[-1] == '__init__.py'
+            name = rest[:-1] if is_pkg else rest[:-1] + [rest[-1][:-3]]
+            by_file[f] = name
+            if tuple(name) not in by_name:
+                i = tree['info'][f]
+                by_name[tuple(name)] = {'name': name, 'pkg': name if is_pkg else name[:-1], 'defs': i['defs'],
+                                        'stars': [{'level': lvl, 'path': path} for lvl, path in i['stars']]}
+    for loc, pkg, modname, qs in tree['importers']:
+        firsts = sorted({(q['level'], tuple(q['names'])) for q in qs if q['form'] == 'starchain'})
+        for lvl, names in firsts:
+            code = 'from %s%s import *\n' % ('.' * lvl, '.'.join(names))
+            start = modname.split('.') if modname else ['__main__']
+            world = dict(by_name)
+            world[tuple(start)] = {'name': start, 'pkg': pkg.split('.') if pkg else [], 'defs': [],
+                                   'stars': [{'level': lvl, 'path': list(names)}]}
+            try:
+                parso.cache.parser_cache.clear()
+                script = jedi.Script(code, path=os.path.join(base, loc), project=project)
+                impl = []
+                for v in script._get_module().star_imports():
+                    f = v.py__file__()
+                    rel = os.path.relpath(str(f), base) if f is not None else None
+                    impl.append(by_file.get(rel, ['?', str(rel)]))
+            except Exception as e:   # noqa  totality is C01's business
+                cls, site = common.exc_site(e)
+                ctx.count('raised', (ti, loc, code), nontrivial=False, bucket='%s@%s' % (cls, site))
+                continue
+            reqs.append({'op': 'starchain', 'modules': list(world.values()), 'start': start, 'fuel': 8})
+            cases.append((('starchain', {'roots': tree['roots'], 'files': tree['files'], 'importer': loc,
+                                         'code': code}), impl))
+
+
 def stream_trees(ctx, reqs, sc):
     import importlib
     import jedi
@@ -380,6 +563,8 @@ def stream_trees(ctx, reqs, sc):
     cases = []          # correspondence cases (key, impl)
     pending = []        # (python query, record) for the oracle
     trees = fixed_trees() + [gen_tree(rng) for _ in range(ctx.size(45, 900))]
+    srng = ctx.subrng('starchains')
+    trees += [gen_star_tree(srng) for _ in range(ctx.size(25, 500))]
     for ti, tree in enumerate(trees):
         base = sc.case_dir()
         scratch.build(base, dirs=tree['dirs'], files=sorted(tree['files'].items()))
@@ -425,16 +610,23 @@ def stream_trees(ctx, reqs, sc):
                 pending.append(({'sys_path': sys_path, 'level': 0, 'names': c, 'from_name': None}, rec))
         # ---- resolve: import statements from several importers
         project = jedi.Project(base, sys_path=list(sys_path), smart_sys_path=False)
-        if tag != 'generated':
+        if tag == 'generated':
+            plan = [(loc, pkg, modname, [(q,) + statement(q) for q in gen_queries(rng, tree, loc)])
+                    for loc, pkg, modname in importer_locations(rng, tree)]
+        elif tag == 'starchain':
+            plan = [(loc, pkg, modname, [(q,) + star_statement(q) for q in qs])
+                    for loc, pkg, modname, qs in tree['importers']]
+        else:
             continue
-        for loc, pkg, modname in importer_locations(rng, tree):
+        if tag == 'starchain':
+            star_world_cases(ctx, reqs, cases, tree, base, project, ti)
+        for loc, pkg, modname, queries in plan:
             path = os.path.join(base, loc)
             if modname:
                 # is the importer itself what Python loads under its dotted name?
                 pending.append(({'sys_path': sys_path, 'level': 0, 'names': modname.split('.'),
                                  'from_name': None}, {'kind': 'self', 'id': (ti, loc), 'full': path}))
-            for q in gen_queries(rng, tree, loc):
-                code, line, col = statement(q)
+            for q, code, line, col in queries:
                 try:
                     # an importer path is reused with different buffers; parso keeps the last buffer of a
                     # path in memory and would serve it as the content of that file to later imports
@@ -459,14 +651,16 @@ def stream_trees(ctx, reqs, sc):
                     req['from_name'] = q['star_name']
                 elif q['from_name'] is not None:
                     req['from_name'] = q['from_name']
-                reqs.append(req)
-                cases.append((('resolve', spec, base, q['form']), got_infer))
+                if tag == 'generated':
+                    reqs.append(req)
+                    cases.append((('resolve', spec, base, q['form']), got_infer))
                 pq = {'sys_path': sys_path, 'package': pkg, 'modname': modname, 'level': q['level'],
                       'names': q['names'], 'from_name': q['from_name'], 'star_name': q.get('star_name')}
                 pending.append((pq, {'kind': 'resolve', 'spec': spec, 'base': base, 'form': q['form'],
                                      'level': q['level'], 'infer': got_infer, 'goto': got_goto,
                                      'toplevel': pkg is None, 'importer_id': (ti, loc),
-                                     'through_importer_name': through_importer(pkg, modname, q)}))
+                                     'through_importer_name': through_importer(pkg, modname, q),
+                                     'star_vs_submodule': bool(q.get('star_vs_submodule'))}))
     # one clean interpreter answers every query while the files still exist
     answers = run_python_oracle([q for q, _ in pending])
     judge(ctx, pending, answers)
@@ -493,6 +687,9 @@ def judge(ctx, pending, answers):
             # (an earlier sys.path entry / a package of the same name shadows it)
             case = {'form': rec['form'], 'importer_shadowed': shadowed.get(rec['importer_id'], False),
                     'through_importer_name': rec['through_importer_name'], 'spec': spec}
+            if rec.get('star_vs_submodule'):
+                # `from pkg import n`: n is bound in pkg/__init__ by a star import AND pkg has a sub-module n
+                case['star_bound_name_is_also_submodule'] = True
             bucket = rec['form'] + ('/rel%d' % rec['level'] if rec['level'] else '') + \
                 ('/script' if rec['toplevel'] else '/inpkg')
             if 'error' in py:
@@ -569,6 +766,16 @@ def compare(ctx, cases, answers):
                       bucket='none' if impl is None else impl.get('kind', 'exc'))
             if ans != impl:
                 ctx.tie_broken('correspondence:find', short({'case': key[1:], 'importlib': impl, 'model': ans}, 800))
+        elif stream == 'starchain':
+            spec = key[1]
+            ctx.count('starchain', json.dumps(spec, sort_keys=True), nontrivial=len(impl) >= 2,
+                      bucket='modules=%d' % len(impl), sample={'code': spec['code'], 'importer': spec['importer'],
+                                                                'star_imports': impl})
+            if ans != impl:
+                ctx.tie_broken('correspondence:starchain',
+                               short({'code': spec['code'], 'importer': spec['importer'], 'roots': spec['roots'],
+                                      'files': spec['files'], 'impl': impl, 'model': ans}, 1500))
+                # failing-input search: the same layouts and statements are judged by oracle-resolve against importlib
         elif stream == 'resolve':
             spec, base, form = key[1], key[2], key[3]
             model = canon_model(ans, base)
